@@ -14,8 +14,8 @@ import ast
 
 from ..model import AnalysisError
 from ..terms import T, walk_terms
-from ..absint import AV, TOP, cav
-from ..walk import (data_derives, ret_alts, call_parts, call_arg, is_call_to, const_val, NOVAL, strip_views, unwrap_gamma, callee_func,
+from ..absint import is_bot, AV, TOP, cav
+from ..walk import (ctx_tree, data_derives, ret_alts, call_parts, call_arg, is_call_to, const_val, NOVAL, strip_views, unwrap_gamma, callee_func,
                     callee_name, axis_uses, norm_stmt, newaxis_insertions, loop_role, is_full_slice, last_axis_product_sum)
 from .. import ein
 from . import c11
@@ -72,7 +72,9 @@ def flatten_calls(ctx):
 
 def check_dispatch(run, A):
     fn = A.prog.func(Q)
-    names = sorted(set(accepted_names(A)) | set(SUPPORTED))
+    names = sorted(n_ for n_ in set(accepted_names(A)) | set(SUPPORTED) if n_ and all(t_ in TOKEN_PRIMITIVE for t_ in n_.split('+')))
+    if len(names) < len(SUPPORTED):
+        raise AnalysisError('get_bf_vector: the documented beamformer names are no longer all accepted by the wrapper')
     run.count('beamformer names (accepted by the wrapper or documented)', len(names))
     n = 0
     for base in names:
@@ -82,6 +84,37 @@ def check_dispatch(run, A):
             ctx = ev.entry(fn, overrides={'beamformer': cav(name)})
             got = flatten_calls(ctx)
             seq = [q for q, _ in got]
+            if base not in SUPPORTED and (ctx.result is None or is_bot(ctx.result)):
+                continue          # a string the wrapper compares with, but not a name it accepts on its own (every path raises): only documented names must be accepted
+            # a call of the wrapper whose callee the interpreter could not resolve (a function taken from a table, a partial application ...) may BE one of the
+            # primitives: the sequence seen is then not the sequence executed, and nothing about it is decided
+            blind = [cf for c_ in ctx_tree(ctx) if c_.fn.mod.name.endswith('beamformer_wrapper') for cf in c_.callfacts
+                     if isinstance(cf.callee, tuple) and cf.callee and cf.callee[0] == 'unresolved']
+            if blind:
+                run.unresolved('R-DISPATCH', f'get_bf_vector({name!r}): primitives called', fn.loc(blind[0].term.node), f'callee not resolved: {blind[0].callee[1]}')
+                continue
+            # ... and a test of the NAME that the interpreter cannot decide for this constant name (string methods it does not model, membership in a table built
+            # elsewhere) leaves both arms of the wrapper open: the calls collected are those of several names at once
+            gw = A.graphs.get(fn)
+            open_tests = []
+            for e_ in gw.events:
+                if e_.kind != 'call':
+                    continue
+                for c_, _pol in e_.guards:
+                    # (the parts of `a and b` / `not a` are judged one by one: a test that is open because of ANOTHER argument is not a test of the name)
+                    stack_ = [c_]
+                    while stack_:
+                        a_ = stack_.pop()
+                        if a_.op == 'bool':
+                            stack_ += list(a_.args[1])
+                        elif a_.op == 'unop' and a_.args[0] == 'Not':
+                            stack_.append(a_.args[1])
+                        elif data_derives(a_, 'beamformer') and ev.truth(ev.eval(a_, ctx)) is None:
+                            open_tests.append(a_)
+            if open_tests:
+                run.unresolved('R-DISPATCH', f'get_bf_vector({name!r}): primitives called', fn.loc(getattr(open_tests[0], 'node', None)),
+                               'a test of the beamformer name is not decided for this name by the interpreter')
+                continue
             tokens = name.split('+')
             want = []
             if len(tokens) >= 2 and tokens[1] == 'mvdr':
